@@ -231,6 +231,8 @@ func (e *Engine) eval(env *Env, x Expr) (TV, error) {
 	case *ECall:
 		return e.evalCall(env, n)
 	case *EQuant:
+		s.quant++
+		defer func() { s.quant-- }()
 		ce := env.child()
 		var decls []string
 		var guards []Term
@@ -902,6 +904,33 @@ func (e *Engine) evalCall(env *Env, n *ECall) (TV, error) {
 			r = Add(Mul(r, IntLit(256)), Select(arr, Add(Add(App("s-off", SInt, slt), at), IntLit(int64(i)))))
 		}
 		return TV{r, types.Typ[types.Uint64]}, nil
+	case "string":
+		// string(b) for a byte slice: the same deterministic function the executor uses for the conversion
+		v, err := e.eval(env, n.Args[0])
+		if err != nil {
+			return TV{}, err
+		}
+		t, err := s.toTerm(v.V)
+		if err != nil {
+			return TV{}, err
+		}
+		if t.Sort == SString {
+			return TV{t, types.Typ[types.String]}, nil
+		}
+		if t.Sort != SSlice || v.T == nil {
+			return TV{}, fmt.Errorf("string() of %s", t.Sort)
+		}
+		st := v.T.Underlying().(*types.Slice)
+		saved := s.heap
+		if env.inOld && env.old != nil {
+			s.heap = map[string]Term{}
+			for k, hv := range env.old.heap {
+				s.heap[k] = hv
+			}
+		}
+		r := e.bytesToString(s, t, st.Elem())
+		s.heap = saved
+		return TV{r, types.Typ[types.String]}, nil
 	case "isNilIface":
 		a, err := e.evalTerm(env, n.Args[0])
 		if err != nil {
